@@ -213,6 +213,11 @@ class OptimizationAbstract(ABC, Generic[T]):
         np.random.seed(task.seed)
         evolution: list[Population] = []
 
+        # per-run bookkeeping: an instance may be used for several runs
+        self._current_cycle = 1
+        self._errors = []
+        self._error_diffs = []
+
         if workers is not None:
             if workers <= 0:
                 raise ValueError("Invalid number of workers. It must be greater than 0")
